@@ -468,4 +468,13 @@ Lemma gs3_example :
   | _ => False
   end.
 Proof. vm_compute. reflexivity. Qed.
+
+(* DESIGN section 5/C12: with the pinned tree's in-place scan and WITHOUT the deep copy, the
+   unpruned run of figure 5.5 would start from the description the pruned run damaged: it raises
+   "Missing transitions", while the unpruned solve of the game alone succeeds. *)
+Lemma copy_matters_for_orig :
+  nth 1 (snd (solve_seq_H_orig qops Fig55.fuel Fig55.hg0 Fig55.st0 None [(true, true); (false, true)])) OutOfFuel
+    = ValueErr msg_missing
+  /\ is_ok (solve_fuel qops Fig55.fuel Fig55.g false) = true.
+Proof. vm_compute. split; reflexivity. Qed.
 End K2.
